@@ -514,6 +514,8 @@ Definition dy (den : positive) (k : Z) : Qc := Q2Qc (k # den).
 Definition dy3 (den : positive) (a b c : Z) : V3 Qc := mk3 (dy den a) (dy den b) (dy den c).
 Definition dy33 (den : positive) (a b c d e f g h i : Z) : M3 :=
   mk3 (dy3 den a b c) (dy3 den d e f) (dy3 den g h i).
+Definition dyl (den : positive) (l : list Z) : list Qc := map (dy den) l.
+Definition dyll (den : positive) (l : list (list Z)) : list (list Qc) := map (dyl den) l.
 
 Definition Qc_eqb (x y : Qc) : bool := if Qc_eq_dec x y then true else false.
 Fixpoint list_eqb {A} (eqb : A -> A -> bool) (l1 l2 : list A) : bool :=
